@@ -57,6 +57,8 @@ type procCase struct {
 	InTime bool   `json:"obs_in_time"`
 	Argv   string `json:"obs_argv"`
 	Note   string `json:"note,omitempty"`
+	Group  int    `json:"history_group,omitempty"` // >0: step of a history on one long-lived CLIPlugin
+	Step   int    `json:"history_step,omitempty"`
 
 	resTerm string
 }
@@ -214,18 +216,17 @@ func writeFileOrPanic(p string, b []byte, mode os.FileMode) {
 	}
 }
 
-// execute runs the case on the real implementation.
-func (c *procCase) execute(root, self string) {
-	dir := filepath.Join(root, strconv.FormatInt(c.ID, 10))
-	if err := os.MkdirAll(dir, 0o755); err != nil {
-		panic(err)
-	}
-	defer os.RemoveAll(dir)
+// install writes the plugin file and the behaviour of the stub into dir.
+func (c *procCase) install(dir string) string {
 	path := filepath.Join(dir, "notation-"+c.Name)
+	os.Remove(filepath.Join(dir, "argv"))
+	os.Remove(filepath.Join(dir, "desc.pid"))
 	switch c.File {
 	case "FExec":
-		if err := os.Symlink(self, path); err != nil {
-			panic(err)
+		if _, err := os.Lstat(path); err != nil {
+			if err := os.Symlink(selfPath, path); err != nil {
+				panic(err)
+			}
 		}
 		sp, _ := json.Marshal(stubSpec{Exit: c.Exit, SleepMs: c.SleepMs, DescMs: c.DescMs, IgnSigpipe: c.IgnSigpipe,
 			OutPB: c.OutPB, OutPA: c.OutPA, ErrPB: c.ErrPB, ErrPA: c.ErrPA})
@@ -240,6 +241,14 @@ func (c *procCase) execute(root, self string) {
 		}
 	case "FMissing":
 	}
+	return path
+}
+
+var selfPath string
+
+// invoke calls the command on p (a fresh CLIPlugin is made when p is nil) and
+// records the observation; it returns the instance for the next step of a history.
+func (c *procCase) invoke(p *nplugin.CLIPlugin, dir, path string) *nplugin.CLIPlugin {
 	ctx := context.Background()
 	var cancel context.CancelFunc = func() {}
 	start := time.Now()
@@ -247,17 +256,24 @@ func (c *procCase) execute(root, self string) {
 		d := time.Duration(c.DeadlineMs) * time.Millisecond
 		if c.Cancel {
 			ctx, cancel = context.WithCancel(ctx)
-			t := time.AfterFunc(d, cancel)
-			defer t.Stop()
+			if c.DeadlineMs == 0 {
+				cancel()
+			} else {
+				t := time.AfterFunc(d, cancel)
+				defer t.Stop()
+			}
 		} else {
 			ctx, cancel = context.WithTimeout(ctx, d)
 		}
 	}
 	defer cancel()
-	var err error
-	p, nerr := nplugin.NewCLIPlugin(ctx, c.Name, path)
+	var err, nerr error
+	if p == nil {
+		p, nerr = nplugin.NewCLIPlugin(ctx, c.Name, path)
+	}
 	if nerr != nil {
 		c.Result, c.resTerm = "RNew", "RNew"
+		p = nil
 	} else {
 		switch c.Cmd {
 		case 0:
@@ -287,6 +303,23 @@ func (c *procCase) execute(root, self string) {
 		if pid, e2 := strconv.Atoi(string(bytes.TrimSpace(b))); e2 == nil && pid > 1 {
 			syscall.Kill(pid, syscall.SIGKILL)
 		}
+	}
+	return p
+}
+
+// executeGroup runs the steps of a history on ONE CLIPlugin instance (a
+// single case is a history of length one); the behaviour of the stub is
+// rewritten between the calls.
+func executeGroup(steps []*procCase, root string) {
+	dir := filepath.Join(root, strconv.FormatInt(steps[0].ID, 10))
+	if err := os.MkdirAll(dir, 0o755); err != nil {
+		panic(err)
+	}
+	defer os.RemoveAll(dir)
+	var p *nplugin.CLIPlugin
+	for _, c := range steps {
+		path := c.install(dir)
+		p = c.invoke(p, dir, path)
 	}
 }
 
